@@ -5,6 +5,8 @@ ID = "C03"
 STAGES = [
     Stage("operator", "p03_operator", "plain", {"quick": 400, "thorough": 40000}),
     Stage("operator-asan", "p03_operator", "asan", {"quick": 48, "thorough": 1500}, offset=1000000),
+    # the runtime delivers fewer threads than the operators request (results must not depend on the team size actually delivered)
+    Stage("operator-thread-limit", "p03_operator", "plain", {"quick": 100, "thorough": 4000}, offset=2000000, env={"OMP_THREAD_LIMIT": "2"}),
 ]
 # scaled differences: |r_a - r_b| / (sum_j |A_ij||u_j| + |f_i|); expected ~1e-15
 THRESHOLDS = {
